@@ -112,7 +112,7 @@ class HIM(Harness):
         self_.function_logger = FL(fun, D, level0 > 0, level0, cache_size=4, variable_transformer=None)
         self_.function_logger.variable_transformer = VT()
         self_.iteration_history = None
-        self_._display_function_log_ = lambda *a: None
+        self_._display_function_log_ = lambda *a: self_.display_format    # the real one formats with self.display_format
         self_._log_column_headers = lambda *a: None
         self_._setup_logging_display_format = lambda *a: ""
         out = Out()
@@ -138,6 +138,8 @@ class HIM(Harness):
             out.ob("reseeded_before_first_draw", bool(rng.draws) and rng.draws[0] == ("seed", 7) and self_.optim_state["random_seed"] == 7)
             out.ob("reseeded_before_first_target_call", [d[0] for d in rng.draws if d[0] in ("seed", "target_call")][:1] == ["seed"])
         out.ob("func_count_is_number_of_target_calls", fl.func_count == len(calls))
+        # the GP training schedule (_get_gp_training_options) reads the size of the initial design from the state
+        out.ob("initial_design_size_recorded", self_.optim_state.get("eff_starting_points") == fl.Xn + 1)
         # -- noise test ----------------------------------------------------------------------------------
         tol_noise = opts["tol_noise"]
         if level0 == 0:
